@@ -111,6 +111,9 @@ class DecayChainViewer:
                 label = f'<<TABLE BORDER="0" CELLSPACING="0" BGCOLOR="{bgcolor}">'
             else:
                 label = f'<<TABLE BORDER="0" CELLSPACING="0" CELLPADDING="0" BGCOLOR="{bgcolor}"><TR>'
+            if not names:
+                # A decay mode without daughters still needs a (then empty) table cell
+                label += '<TD BORDER="0" CELLPADDING="2"></TD>'
             for i, n in enumerate(names):
                 if add_tags:
                     label += f'<TR><TD BORDER="1" CELLPADDING="5" PORT="p{i}">{safe_html_name(n)}</TD></TR>'
